@@ -255,11 +255,18 @@ def transact_block(pid):
                       'block can wipe the mark of the thread that is' % ', '.join(foreign_writers)))
     nf = 0
     for n, p in enumerate(explore(foreign, max_paths=200)):
-        busy = any(e[0] == 'BEGIN_BUSY' for e in p.state.trace)
+        kinds = [e[0] for e in p.state.trace if e[0] in ('BEGIN', 'BEGIN_BUSY', 'BODY')]
+        base = '%s.transact[other thread inside its block]#%d' % (pid, n)
+        if 'BODY' in kinds and 'BEGIN' not in kinds:
+            nf += 1
+            out.append(R(base + '.enters_only_with_the_lock', False, 'transact', p,
+                         'the body of a block ran without BEGIN IMMEDIATE while ANOTHER thread of the same object is inside its '
+                         'block: the owner mark was taken for this thread\'s own (effects %r)' % (kinds,)))
+            continue
+        busy = 'BEGIN_BUSY' in kinds
         if not busy:
             continue            # the lock is held by the other thread: BEGIN cannot succeed in this state
         nf += 1
-        base = '%s.transact[other thread inside its block]#%d' % (pid, n)
         ok = p.kind == 'raise' and p.value.cls == 'Timeout' and not any(e[0] == 'BODY' for e in p.state.trace)
         out.append(R(base + '.times_out_without_running', ok, 'transact', p, '%s %r' % (p.kind, p.value)))
         ok = p.state.ghost['self'].fields['_txn_id'] is p.state.ghost['mark']
@@ -473,6 +480,8 @@ def extra_tasks(pid):
         ts += [('contracts.fanout_common', 'routed', (m, 'other')) for m in fc.ROUTED]
         ts += [('contracts.traces', 'operator_forms_retry', ())]
         ts += [('contracts.bulk', 'bulk_task', ('C14', k)) for k in ('clear', 'evict', 'expire')]
+        # sharded bulk removals: the counts carried by every Timeout of every shard are added up
+        ts += [('contracts.fanout_common', 'aggregate', (m,)) for m in ('expire', 'evict', 'cull', 'clear')]
         ts += [('contracts.bulk', 'cull_task', ('C14', 'least-recently-stored'))]
     if pid == 'C07':
         ts += [('contracts.traces', 'exclusive_create', ())]
@@ -509,8 +518,8 @@ def post_process(pid, results):
             r = Result('C08.' + r['name'][4:], r['kind'], r['verdict'],
                        **{k: v for k, v in r.items() if k not in ('name', 'kind', 'verdict')})
         if pid == 'C14' and r['name'].startswith('C13.'):
-            if not r['name'].endswith('.result'):
-                continue            # only the Timeout / result mapping belongs to C14
+            if not (r['name'].endswith('.result') or '_remove' in r['name'] or 'each_shard_once' in r['name'] or '.total' in r['name']):
+                continue            # only the Timeout / result mapping and the bulk-removal totals belong to C14
             r = Result('C14.fanout.' + r['name'][4:], r['kind'], r['verdict'],
                        **{k: v for k, v in r.items() if k not in ('name', 'kind', 'verdict')})
         out.append(r)
